@@ -41,7 +41,7 @@ class Sel:
     """
 
     def __init__(self, calls=(), fields=(), conds=None, locks=True, indirect=False, rets=False,
-                 decls=()):
+                 decls=(), assigns=()):
         self.calls = calls
         self.fields = set(fields)
         self.conds = conds
@@ -49,6 +49,7 @@ class Sel:
         self.indirect = indirect
         self.rets = rets
         self.decls = set(decls)
+        self.assigns = set(assigns)   # local variables whose plain assignments are recorded like decls
 
     def _want_call(self, fn):
         if callable(self.calls):
@@ -92,6 +93,9 @@ class Sel:
                 return ("call", fn, argpaths(F, nd), nid)
             if not fn and self.indirect:
                 return ("icall", F.fieldpath(nd["fe"]), argpaths(F, nd), nid)
+        elif k == "bin" and nd.get("asg") and self.assigns and nd["op"] == "=" and \
+                F.nodes[F.strip(nd["lh"])].get("k") == "ref" and F.nodes[F.strip(nd["lh"])]["n"] in self.assigns:
+            return ("decl", F.nodes[F.strip(nd["lh"])]["n"], F.render(nd["rh"]), nid)
         elif k == "bin" and nd.get("asg") and self.fields:
             p = self._want_field(F, nd["lh"])
             if p:
